@@ -1161,3 +1161,86 @@ def build_rectangular_unknowns(rng, sid, typ, mr, mc):
     sc.add_line([sc.known([0.1]), ln, l2n, rn], 1, 2, [cut(em.measure([[0.1, l], [l2, r]], 0))])
     sc.meta.update({"family": "rectangular_unknowns", "type": typ, "mr": mr, "mc": mc})
     return sc
+
+
+# ----------------------------------------------------------------------------- C18: unequal column systems, leakage sample counts
+def _noisy(ms, noise):
+    """measurement noise of exactly the declared model (sigma_nf, sigma_tr, rng) on a list of matrices"""
+    if noise is None:
+        return ms
+    snf, str_, nrng = noise
+    return [[[z + cgauss(nrng, math.sqrt(snf * snf + str_ * str_ * abs(z) ** 2)) for z in row] for row in m] for m in ms]
+
+
+def build_unequal_columns(rng, sid, typ, n, extra, nf=1, n_unknown=0, excess=2, noise=None):
+    """build_general (a determining, over-determined set with the same number of equations in every
+    system) followed by extra[p] further known single-reflect standards on port p + 1.  For UE14 /
+    E12 a single reflect on port p adds one equation to the system of column p only, so that the
+    column systems get DIFFERENT equation counts (e.g. extra = [2, 1, 0]: five, four, three more
+    than ... on ports 1, 2, 3); it also adds one leakage sample to the cells of row / column p, so
+    that the cells have different sample counts.  For the other types it adds equations to the one
+    system."""
+    sc = build_general(rng, sid, typ, n, nf, n_unknown, 0, excess=excess, noise=noise)
+    for port in range(1, n + 1):
+        for k in range(extra[port - 1]):
+            g = crand(rng, 0.15, 0.95)
+            full = _embed(n, (port,), [[g]], rng)
+            ms = _noisy([sc.em.measure(full, f) for f in range(nf)], noise)
+            sc.add_single(sc.known([g] * nf), port, ms)
+    sc.meta.update({"family": "unequal_columns", "extra": list(extra)})
+    return sc
+
+
+def build_connected_only(rng, sid, typ, n, nfull, nsep=0, nf=1, noise=None):
+    """nfull known standards that connect every pair of ports (random full n-port S, none of the
+    off-diagonal cells zero) and nsep multi-reflect standards (diagonal S: no path between any two
+    ports).  Every off-diagonal leakage cell gets exactly nsep samples: 0 when nsep = 0 (every
+    standard connects the ports), 1, or more."""
+    freqs = default_freqs(nf)
+    em = ErrorModel(rng, typ, n, nf)
+    sc = Scenario(sid, typ, n, freqs)
+    sc.em = em
+    stds = []
+    for k in range(nfull):
+        sf = rand_full_s(rng, n)
+        nm = [[sc.known([sf[i][j]] * nf) for j in range(n)] for i in range(n)]
+        stds.append((nm, [sf] * nf))
+    for k in range(nsep):
+        g = [rand_reflect(rng, k + p) for p in range(n)]
+        nm = [[sc.known([g[i]] * nf) if i == j else "zero" for j in range(n)] for i in range(n)]
+        stds.append((nm, [[[g[i] if i == j else 0j for j in range(n)] for i in range(n)]] * nf))
+    rng.shuffle(stds)
+    for nm, st in stds:
+        sc.add_mapped(nm, _noisy([em.measure(st[f], f) for f in range(nf)], noise))
+    sc.nstd = len(stds)
+    sc.meta.update({"family": "connected_only", "type": typ, "n": n, "nfull": nfull, "nsep": nsep,
+                    "expected_leak_count": nsep})
+    return sc
+
+
+def parse_pvalue_taps(out):
+    """white-box lines of the _vnacal_new_solve_calc_pvalue tap -> one dict per call:
+    {"findex", "unknowns", "eqs": [..], "cells": [((row, col), count, [(given, connected), ...])],
+     "exp": [arguments of exp() inside the call], "p": returned p-value}"""
+    calls, cur = [], None
+    for line in out.splitlines():
+        if not line.startswith("wb "):
+            continue
+        p = line.split()
+        if p[1] == "pvin":
+            d = dict(x.split("=", 1) for x in p[2:])
+            cur = {"findex": int(d["findex"]), "unknowns": int(d["unknowns"]),
+                   "eqs": [int(x) for x in d["eqs"].split(",") if x], "cells": [], "exp": [], "p": None}
+            calls.append(cur)
+        elif cur is None:
+            continue
+        elif p[1] == "leakcell":
+            d = dict(x.split("=", 1) for x in p[4:])
+            std = [(t[0] == "1", t[1] == "1") for t in d["std"].split(",") if t]
+            cur["cells"].append(((int(p[2]), int(p[3])), int(d["count"]), std))
+        elif p[1] == "exp" and cur["p"] is None:
+            cur["exp"].append(float(p[2]))
+        elif p[1] == "pvout":
+            cur["p"] = float(p[2])
+            cur = None
+    return calls
